@@ -141,6 +141,21 @@ static void run_case(const std::string &line) {
     if (kv.count("ok") && kv["ok"] == "1") n->SetHandleOnlyKnownMessages(true);
     if (kv.count("iso")) { std::vector<unsigned long> *l = plist(kv["iso"]); g_iso_accept.assign(l->begin(), l->end() - 1); n->SetISORqstHandler(iso_handler); }
     if (kv.count("noconf") && kv["noconf"] == "1") n->SetProgmemConfigurationInformation(0, 0, 0);   // no configuration information at all
+    if (kv.count("prod")) {          // prod=<hex model id>,<hex software code>,<hex model version>,<hex serial code>: SetProductInformation (device 0), exact-size heap strings
+      std::vector<char *> st;
+      std::string c = kv["prod"]; size_t pos = 0;
+      while (st.size() < 4) {
+        size_t e = c.find(',', pos); std::string h = c.substr(pos, e == std::string::npos ? std::string::npos : e - pos);
+        if (h == "-") h = "";
+        char *b = (char *)malloc(h.size() / 2 + 1);
+        for (size_t i = 0; i + 1 < h.size(); i += 2) b[i / 2] = (char)strtoul(h.substr(i, 2).c_str(), 0, 16);
+        b[h.size() / 2] = 0; st.push_back(b);
+        if (e == std::string::npos) break;
+        pos = e + 1;
+      }
+      if (st.size() == 4) n->SetProductInformation(st[3], 666, st[0], st[1], st[2], 1, 2101, 0);
+      for (size_t i = 0; i < st.size(); i++) free(st[i]);
+    }
     if (kv.count("pconf")) {         // pconf=<hex inst1>,<hex inst2>,<hex manufacturer>: SetProgmemConfigurationInformation (the strings stay where they are: never freed)
       std::vector<char *> st;
       std::string c = kv["pconf"]; size_t pos = 0;
